@@ -59,6 +59,8 @@ def families(tier):
             # reversed listing + reversed linking, and each alone
             pick = {(perms[-1], lperms[-1]), (perms[-1], lperms[0]), (perms[0], lperms[-1])}
             combos = [c for c in combos if c in pick]
+        elif name in ("fan_out_late_first_pull", "fan_out_required", "abc_required"):
+            combos = combos[:: max(1, len(combos) // 4)]  # thorough: 4 spread-out permutation pairs (cost)
         elif len(combos) > 12:
             combos = combos[:: max(1, len(combos) // 12)]
         for po, lo in combos:
